@@ -284,6 +284,9 @@ func c14Method(c *Ctx, ct *Cont, fd *ast.FuncDecl, m *types.Func, fam, name stri
 		r1("loop").Fail("expected exactly one loop, a range over the receiver's own spine")
 		return
 	}
+	if r := v.asRange(loop); r != nil {
+		loop = r
+	}
 	if loop.Range == nil || !v.isRecvSpine(loop.Over) {
 		r1("loop").Fail("the loop does not range over the receiver's own spine")
 		return
